@@ -66,6 +66,9 @@ def sde_case(tid, coef, x0, mu4, dts4, dW4, dL4, coupled, mu4c=None, dW4c=None, 
             path = proc.simulate_one_path()
             val = np.atleast_2d(path.value())[0]
             xs = [[float(x0) + v for v in val]]
+            # a second path from the same process object starts from x0 again
+            val_again = np.atleast_2d(proc.simulate_one_path().value())[0]
+            xs_again = [[float(x0) + v for v in val_again]]
             eps_u = exact_int(proc.epsilon / U)
             h_u = exact_int(grid.h / U)
         else:
@@ -95,6 +98,16 @@ def sde_case(tid, coef, x0, mu4, dts4, dW4, dL4, coupled, mu4c=None, dW4c=None, 
         r = {"e": "Euler", "x": rec, "times4": [exact_int(t * 4) for t in np.asarray(path.times())], "eps_u": eps_u, "h_u": h_u}
         r["bad"] = count_bad(r)
         ev.append(r)
+        if not coupled:
+            rec2 = []
+            for comp in xs_again:
+                if coef[0] == "const":
+                    rec2.append([exact_int(x * 16) for x in comp])
+                else:
+                    rec2.append([exact_int(x * 16 ** i, tol=1e-9) for i, x in enumerate(comp)])
+            r2 = dict(r, x=rec2)
+            r2["bad"] = count_bad(r2)
+            ev.append(r2)
     except Exception as ex:
         ev.append({"e": "Raise", "what": type(ex).__name__ + ": " + str(ex)[:100]})
     return {"tid": tid, "hdr": hdr, "ev": ev}
@@ -145,6 +158,7 @@ def sde_case_2d(tid, coef, x0s, mu4, dts4, dW4, dL4, coupled, mu4c=None, dW4c=No
             proc.initialisation(product)
             proc.markov_chain.simulate_one_path = lambda: StochasticJumpPath(times, cum(dW4), cum(dL4))
             proc.markov_chain.process_drift = lambda: col(mu4)
+            proc.simulate_one_path()            # an earlier path on the same process object must leave no trace
             path = proc.simulate_one_path()
             val = np.atleast_2d(path.value())
             xs = [[float(x0s[k]) + v for v in val[k]] for k in range(m)]
